@@ -68,3 +68,47 @@ pub broadcast proof fn axiom_fmt_error() ensures #[trigger] vstd::std_specs::fmt
 #[verifier::external_body]
 pub broadcast proof fn axiom_fmt_shared_error() ensures #[trigger] vstd::std_specs::fmt::fmt_req_all::<crate::proxy_agent_shared::error::Error>() {}
 pub broadcast group group_fmt_telemetry { axiom_fmt_path_display, axiom_fmt_io_error, axiom_fmt_error, axiom_fmt_shared_error }
+
+// ---- the upload itself (WireServerClient::send_telemetry_data): http / hyper types come from contracts/common/http.rs ----
+#[verifier::external_type_specification]
+#[verifier::external_body]
+pub struct ExUri(http::Uri);
+// Display of the wire-server URL inside format! does not panic (error text only)
+#[verifier::external_body]
+pub broadcast proof fn axiom_fmt_uri() ensures #[trigger] vstd::std_specs::fmt::fmt_req_all::<http::Uri>() {}
+
+/// the bytes of a text: its UTF-8 encoding (vstd's model)
+pub open spec fn utf8_bytes(s: Seq<char>) -> Seq<u8> { vstd::utf8::encode_utf8(s) }
+// `String::as_bytes`: "Returns a byte slice of this String's contents" (the UTF-8 encoding)
+pub assume_specification [String::as_bytes] (s: &String) -> (r: &[u8])
+    ensures r@ == utf8_bytes(s@);
+// `StatusCode::is_success`: "Check if status is within 200-299" (http crate documentation)
+pub assume_specification [http::StatusCode::is_success] (s: &http::StatusCode) -> (r: bool)
+    ensures r == (200 <= status_code(*s) < 300);
+// the other status-class queries and `as_u16` (http crate documentation: "Check if status is within 100-199" ... "500-599");
+// not used by the pinned tree, specified so that an edit of the status check is decided rather than undecided
+pub assume_specification [http::StatusCode::as_u16] (s: &http::StatusCode) -> (r: u16)
+    ensures r == status_code(*s);
+pub assume_specification [http::StatusCode::is_informational] (s: &http::StatusCode) -> (r: bool)
+    ensures r == (100 <= status_code(*s) < 200);
+pub assume_specification [http::StatusCode::is_redirection] (s: &http::StatusCode) -> (r: bool)
+    ensures r == (300 <= status_code(*s) < 400);
+pub assume_specification [http::StatusCode::is_client_error] (s: &http::StatusCode) -> (r: bool)
+    ensures r == (400 <= status_code(*s) < 500);
+pub assume_specification [http::StatusCode::is_server_error] (s: &http::StatusCode) -> (r: bool)
+    ensures r == (500 <= status_code(*s) < 600);
+/// every byte the (boxed) body of a request yields when it is written to the connection
+pub uninterp spec fn box_body_bytes(b: http_body_util::combinators::BoxBody<hyper::body::Bytes, hyper::Error>) -> Seq<u8>;
+pub open spec fn opt_slice(b: Option<&[u8]>) -> Seq<u8> { match b { Some(v) => v@, None => Seq::<u8>::empty() } }
+// `StatusCode == StatusCode` / `!=` (derived PartialEq over the numeric code) goes through vstd's PartialEqSpec
+#[verifier::external_body]
+pub broadcast proof fn axiom_status_obeys_eq_spec() ensures #[trigger] <http::StatusCode as vstd::std_specs::cmp::PartialEqSpec>::obeys_eq_spec() {}
+#[verifier::external_body]
+pub broadcast proof fn axiom_status_eq_spec(a: http::StatusCode, b: http::StatusCode)
+    ensures #[trigger] vstd::std_specs::cmp::PartialEqSpec::eq_spec(&a, &b) == (status_code(a) == status_code(b)) {}
+pub broadcast group group_upload { axiom_fmt_uri, axiom_status_obeys_eq_spec, axiom_status_eq_spec }
+// field types of the (transparent) crate error enum: opaque
+#[verifier::external_type_specification] #[verifier::external_body]
+pub struct ExFromHexError(hex::FromHexError);
+#[verifier::external_type_specification] #[verifier::external_body]
+pub struct ExRecvError(tokio::sync::oneshot::error::RecvError);
